@@ -74,5 +74,5 @@ SPEC = dict(
                'exported body, in every build configuration of the 7 real A_HAVE_* switches and both real widths; exact array model (exhaustive over small '
                'lengths) for the data-movement helpers. Arguments are unbounded; stratified sampling is the reachable level.',
     level_note='trusted: libquadmath, finite-difference condition estimate, the array model in harness/h_real.c',
-    technique='differential testing against libquadmath per build configuration, exact array model with canaries, ASan/UBSan; strides and lengths beyond 2^32 over sparsely backed mappings',
+    technique='differential testing against libquadmath per build configuration, exact array model with canaries, ASan/UBSan; strides and lengths beyond 2^32 over sparsely backed mappings; norm clause repeated with the calling thread in flush-to-zero mode; build configurations derived from nested preprocessor conditionals',
 )
